@@ -183,6 +183,7 @@ def check_space(desc):
     ndof = space.global_dof_count
     c = rng.standard_normal(ndof)
     gc = sg.grid_coeffs(space, c)
+    cmax = float(np.max(np.abs(gc))) if len(gc) else 1.0
     # library evaluator agrees with the reference basis
     pts = np.array([[0.2, 0.6, 0.1], [0.3, 0.1, 0.7]])
     sample_elems = np.flatnonzero(sup)
@@ -231,7 +232,8 @@ def check_space(desc):
             n1 /= np.linalg.norm(n1)
             tau = Vs[:, b] - Vs[:, a]
             tau /= np.linalg.norm(tau)
-            mag = max(np.max(np.abs(vals[0])), np.max(np.abs(vals[1])), 1e-300)
+            # floor: functions that vanish on this edge from both sides leave only rounding noise
+            mag = max(np.max(np.abs(vals[0])), np.max(np.abs(vals[1])), 1e-6 * scale_f * cmax, 1e-300)
             if kind == "P1":
                 jump = np.max(np.abs(vals[0] - vals[1]))
             elif kind in ("RWG", "BC"):
